@@ -156,14 +156,25 @@ def _run(chk, tier, jobs, deadline, exe, canon):
     def count(cw):
         rc, lines, err = _run_lines([exe, "--count", "--cfg", cw[0]], env, timeout=120)
         for ln in lines:
-            if ln.get("t") == "count":
+            if ln.get("t") in ("count", "crash"):
+                ln["stderr"] = ln.get("stderr") or err
                 return ln
         return dict(t="broken", text="count failed for %s (rc=%d): %s %s" % (cw[0], rc, lines[-1:] or "", err[-300:]))
     with ThreadPoolExecutor(max_workers=max(1, jobs)) as ex:
         counts = list(ex.map(count, cfgs))
     plan = []
     per_cfg = {}
+    warm_crashed = []
     for (cfg, w), cnt in zip(cfgs, counts):
+        if cnt.get("t") == "crash":
+            # the reference handshake itself kills the receiver
+            one = cnt["one"]
+            chk.finding(_crash_sig(cnt, cfg), "the receiving process died (%s) in the warm-up of %s  [case: %s]\n%s" %
+                        (cnt.get("kind"), cfg, one, cnt.get("stderr", "")[:1800]),
+                        dict(harness="h_wire.asan", build="asan", case=one, stderr=cnt.get("stderr", "")[:3000],
+                             replay_cmd="%s%s --count --cfg '%s'" % (envs, canon, cfg)))
+            warm_crashed.append(cfg)
+            continue
         if cnt.get("t") != "count":
             chk.broke(cnt.get("text", "count failed"))
             continue
@@ -253,6 +264,9 @@ def _run(chk, tier, jobs, deadline, exe, canon):
                 elif t == "done":
                     done = True
                     per_cfg[cfg]["chunks_done"] += 1
+                    if ln.get("aborted"):
+                        per_cfg[cfg]["chunks_cut_short_after_12_crashes"] = \
+                            per_cfg[cfg].get("chunks_cut_short_after_12_crashes", 0) + 1
             if not done:
                 chk.broke("harness did not finish %s [%d,%d) (rc=%d): %s" % (cfg, a, b, rc, err[-400:]))
 
@@ -267,7 +281,8 @@ def _run(chk, tier, jobs, deadline, exe, canon):
     for s, c in sigcount.items():
         if s in chk.findings and c > chk.findings[s]["count"]:
             chk.findings[s]["count"] = c
-    complete = all(p["cases_done"] == p["cases_in_space"] for p in per_cfg.values()) and not chk.deadline_hit
+    complete = all(p["cases_done"] == p["cases_in_space"] for p in per_cfg.values()) and not chk.deadline_hit \
+        and not warm_crashed
     # a spread of samples: first of every configuration first
     seen, spread = set(), []
     for s in samples:
@@ -283,6 +298,7 @@ def _run(chk, tier, jobs, deadline, exe, canon):
                 max_heap_growth_with_openssl_bytes=tot["max_growth_all"],
                 max_heap_peak_garbage_handshake_bytes=tot["max_peak_hs"], heap_peak_good_handshake_bytes=tot["hs_peak_ref"],
                 identity_mutations_skipped=tot["identity_skipped"], mutated_handshakes_accepted_by_xcm=tot["hs_xcm_ok"],
-                configurations=len(per_cfg), chunks_skipped_by_deadline=tot["skipped_chunks"],
+                configurations=len(per_cfg), configurations_dead_in_warm_up=len(warm_crashed),
+                chunks_skipped_by_deadline=tot["skipped_chunks"],
                 per_configuration=sorted(per_cfg.values(), key=lambda p: p["configuration"]),
                 samples=spread[:12], exhaustive=bool(complete), build="asan (clang ASan + UBSan memory subset)")
